@@ -52,19 +52,26 @@ func (u *ubound) siteOK(e ssa.Value, at ssa.Instruction, isX func(ssa.Value) boo
 		}
 		return out
 	}
-	if vac := inFn(u.vac); len(vac) > 0 && guardedByEdges(fn, at, vac) {
+	vac := inFn(u.vac)
+	if len(vac) > 0 && guardedByEdges(fn, at, vac) {
 		return true
 	}
+	// every path to the site crosses an edge on which the requirement is vacuous or on which e was
+	// found <= something bounded (`if stop > 0 && n > stop { return stop }; return n`)
+	all := append([]Edge{}, vac...)
 	for _, lf := range u.leqIn(fn, e) {
 		les := inFn(lf.edges)
-		if len(les) == 0 || !guardedByEdges(fn, at, les) {
+		if len(les) == 0 {
 			continue
 		}
-		if u.bounded(lf.w, isX, d+1, busy) {
+		if guardedByEdges(fn, at, les) && u.bounded(lf.w, isX, d+1, busy) {
 			return true
 		}
+		if u.bounded(lf.w, isX, d+1, busy) {
+			all = append(all, les...)
+		}
 	}
-	return false
+	return len(all) > 0 && guardedByEdges(fn, at, all)
 }
 
 func (u *ubound) boundedDef(mf *memField, def *memDef, isX func(ssa.Value) bool, d int, busy map[ssa.Value]bool, seen map[*memDef]bool) bool {
@@ -286,7 +293,7 @@ func (u *ubound) bounded(v ssa.Value, isX func(ssa.Value) bool, d int, busy map[
 						continue
 					}
 					n++
-					if !u.bounded(vals[idx], isX, d+1, busy) {
+					if !u.bounded(vals[idx], isX, d+1, busy) && !u.siteOK(vals[idx], ret, isX, d, busy) {
 						return false
 					}
 				}
